@@ -380,6 +380,29 @@ theorem gen_publish_after_success :
     Csvq.Skeleton.publishAfterSuccess Csvq.Gen.fxDropColumns = true ∧ Csvq.Skeleton.publishAfterSuccess Csvq.Gen.fxRenameColumn = true ∧
     Csvq.Skeleton.publishAfterSuccess Csvq.Gen.fxSetTableAttribute = true := by decide
 
+/-- a write INTO the FileInfo (which the working copy shares with the cached table) is followed by no step that can
+    fail: after the first `write_fileinfo_field(…)` of a function nothing is evaluated, no error or context is looked at -/
+def attributeWritesLast (l : List String) : Bool :=
+  (l.dropWhile fun t => !Csvq.Skeleton.hasPrefix "write_fileinfo_field(" t).all fun t =>
+    t != "if(err){" && t != "if(ctx){" && t != "evaluate" && !Csvq.Skeleton.hasPrefix "evaluate_each_record" t &&
+      !Csvq.Skeleton.hasPrefix "call(" t
+
+/-- ATTRIBUTES AFTER SUCCESS, for all nine functions (C08-m16 reset the delimiter positions of a fixed-length table
+    BEFORE the DEFAULT expressions of ALTER TABLE … ADD were evaluated: a failing statement had then already changed
+    the cached table's layout) -/
+theorem gen_attribute_writes_after_success :
+    attributeWritesLast Csvq.Gen.fxInsert = true ∧ attributeWritesLast Csvq.Gen.fxUpdate = true ∧
+    attributeWritesLast Csvq.Gen.fxReplace = true ∧ attributeWritesLast Csvq.Gen.fxDelete = true ∧
+    attributeWritesLast Csvq.Gen.fxCreateTable = true ∧ attributeWritesLast Csvq.Gen.fxAddColumns = true ∧
+    attributeWritesLast Csvq.Gen.fxDropColumns = true ∧ attributeWritesLast Csvq.Gen.fxRenameColumn = true ∧
+    attributeWritesLast Csvq.Gen.fxSetTableAttribute = true := by decide
+
+/-- not vacuous: AddColumns does write an attribute, and the shape of C08-m16 is rejected -/
+theorem attribute_writes_nonvacuous :
+    Csvq.Gen.fxAddColumns.any (fun t => Csvq.Skeleton.hasPrefix "write_fileinfo_field(" t) = true ∧
+    attributeWritesLast ["load(forUpdate=true,ids=false)", "if{", "write_fileinfo_field(DelimiterPositions)", "}",
+      "evaluate_each_record{", "evaluate", "if(err){", "return", "}", "}", "set_records(view)", "publish_file(view)", "return"] = false := by decide
+
 /-- the check is not vacuous: the publication loop of Delete before 2dda37b (context looked at inside the loop) fails it -/
 theorem publish_after_success_rejects_old_delete_loop :
     Csvq.Skeleton.publishAfterSuccess
@@ -562,11 +585,13 @@ theorem release_check_rejects_missing_close :
 
 /-- the functions evaluate on what the load returned or on further copies, never on the cached view itself: the only
     writes are cell / record-set / header replacements of `view` (the load's copy) or of the `get_copy` views, and no
-    write goes INTO a cell (cells are shared between a copy and the cached table) -/
+    write goes INTO a cell (cells are shared between a copy and the cached table); the one write into the FileInfo, which
+    IS shared (AddColumns resetting the delimiter positions of a fixed-length table, F99), comes after every step that can
+    fail: `gen_attribute_writes_after_success` -/
 theorem gen_writes_go_to_copies :
     Csvq.Skeleton.writes Csvq.Gen.fxUpdate = ["write_cell(viewsToUpdate[viewref])"] ∧
     Csvq.Skeleton.writes Csvq.Gen.fxDelete = ["set_records(v)"] ∧
-    Csvq.Skeleton.writes Csvq.Gen.fxAddColumns = ["set_header(view)", "set_records(view)"] ∧
+    Csvq.Skeleton.writes Csvq.Gen.fxAddColumns = ["set_header(view)", "set_records(view)", "write_fileinfo_field(DelimiterPositions)"] ∧
     Csvq.Skeleton.writes Csvq.Gen.fxRenameColumn = ["write_header(view)"] ∧
     Csvq.Skeleton.writes Csvq.Gen.fxInsert = [] ∧ Csvq.Skeleton.writes Csvq.Gen.fxReplace = [] ∧
     Csvq.Skeleton.writes Csvq.Gen.fxDropColumns = [] ∧ Csvq.Skeleton.writes Csvq.Gen.fxSetTableAttribute = [] ∧
